@@ -56,6 +56,26 @@ _sdm.compute_attractor_candidates = _rec_cac
 _ac.make_heuristic_retained_set = _rec_heur
 _ac.compute_fixed_point_reduced_STG = _rec_cfp
 
+# ---- symbolic_attractor_test I/O recording (C12) ----
+import biobalm._sd_attractors.attractor_symbolic as _as
+_SYM = []
+_orig_sat = _as.symbolic_attractor_test
+def _vs_states(graph, cset):
+    out = []
+    for m in cset.vertices().items():
+        out.append({graph.get_network_variable_name(k): int(v) for k, v in m.to_dict().items()})
+    return out
+def _rec_sat(sd, node_id, graph, pivot, avoid_set):
+    res = _orig_sat(sd, node_id, graph, pivot, avoid_set)
+    try:
+        if graph.network_variable_count() <= 7:
+            _SYM.append({"node": node_id, "space": dict(sd.node_data(node_id)["space"]), "pivot": dict(pivot),
+                         "avoid": _vs_states(graph, avoid_set), "result": None if res is None else _vs_states(graph, res)})
+    except Exception as e:      # recording must never disturb the library
+        _SYM.append({"error": repr(e)})
+    return res
+_as.symbolic_attractor_test = _rec_sat
+
 def classify_exc(e):
     if isinstance(e, RuntimeError):
         return "raised:motiflimit" if "stable motifs" in str(e) else "raised:runtime"
@@ -69,6 +89,7 @@ def apply_real(sd, op, nm):
     """returns (result string, tape string or None, sd (pickle may replace it))"""
     _TAPE.clear()
     _PIPE.clear()
+    _SYM.clear()
     k = op[0]
     tape = None
     try:
